@@ -585,6 +585,11 @@ func (u *Unit) verifyRoot() {
 			u.oblige(fr, "balance", fn.Pos(), "locks held at return equal locks held at entry", ex.st.pc, Eq(ex.st.held, want), false)
 		}
 	}
+	for _, k := range sortedKeys(u.callsiteErr) {
+		if !u.callsiteBound[k] {
+			u.bindErrors = append(u.bindErrors, u.callsiteErr[k])
+		}
+	}
 	u.exitCount = len(exits)
 	for _, ex := range exits {
 		u.exitPCs = append(u.exitPCs, ex.st.pc)
